@@ -290,7 +290,11 @@ theorem inv_opCreat (hF : Framed I) {p : Bytes} (h : PathOk I p) : Inv I (opCrea
 theorem inv_opWrite (hF : Framed I) {p : Bytes} (h : PathOk I p) (b : Bytes) : Inv I (opWrite p b) := by
   unfold opWrite; dm_walk [inv_doOp hF.tick (h.write _ _ ?_)]
 theorem inv_opChmod (hF : Framed I) {p : Bytes} (h : PathOk I p) (m : Nat) : Inv I (opChmod p m) := by
-  unfold opChmod; dm_walk [inv_doOp hF.tick (h.chmod _ _ ?_)]
+  unfold opChmod
+  refine inv_get_bind fun s hs => ?_
+  refine inv_ite (fun _ => ?_) (fun _ => inv_doOp hF.tick (h.chmod _ _ hs))
+  refine inv_bind ⟨fun _ _ => hF.tick.out s hs⟩ fun _ => ?_
+  exact inv_ite (fun _ => inv_pure _) (fun _ => inv_throw _)
 theorem inv_opRename (hF : Framed I) {a b : Bytes} (h : RenameOk I a b) : Inv I (opRename a b) := by
   unfold opRename; dm_walk [inv_doOp hF.tick (h.out _ ?_)]
 theorem inv_writeFile (hF : Framed I) {p : Bytes} (h : PathOk I p) (b : Bytes) : Inv I (writeFile p b) := by
@@ -308,10 +312,13 @@ theorem inv_makeWayFor (hF : Framed I) {p : Bytes} (h : PathOk I p) : Inv I (mak
   unfold makeWayFor; dm_walk [inv_fsIsSymlink _, inv_fsIsRegular _, inv_doOp hF.tick (h.unlink _ ?_)]
 theorem inv_makeBackupFor (hF : Framed I) {o : Options} {p : Bytes} (h : PathOk I (backupName o p))
     (hr : RenameOk I p (backupName o p)) : Inv I (makeBackupFor o p) := by
-  constructor
-  intro s hs
   unfold makeBackupFor
   dsimp only
+  refine inv_bind (inv_fsExists _) fun a => inv_bind (inv_fsIsRegular _) fun b => ?_
+  split
+  · exact inv_pure _
+  constructor
+  intro s hs
   rw [run_bind, run_get]
   dsimp only
   split
